@@ -66,7 +66,8 @@ def bounded(tier, seed):
                     return {"name": r.choice(["a", "b", "c-d", "e.f"]), "prefix": r.choice([None, "p"]), "nsmap": ns,
                             "attributes": {k: v() for k in r.sample(["id", "x", "y"], r.randint(0, 2))},
                             "extras": {"p:att": v()} if r.random() < 0.4 else {},
-                            "content": None if (has_kids and r.random() < 0.7) else (v() or None), "tail": None if not path else r.choice([None, v() or None])}
+                            "content": None if ((has_kids and r.random() < 0.7) or (not has_kids and r.random() < 0.3)) else (v() or None),     # incl. empty elements
+                            "tail": None if not path else r.choice([None, v() or None])}
                 t = nat.build(shape, fields)
                 # namespace invariant of imports/attaches: a node's prefixes include its parent's
                 def cum(x, inh):
